@@ -30,7 +30,19 @@ MANIFEST = {
             'latest publisher\'s leaf, or no leaf at all and then a causal ancestor dropped it), and '
             'drop_after_two_generations_fails (without DropsLow the statement is FALSE of the code: a variant of '
             'known finding G, replayed on the real functions by the hist stream), dropsLow_from_dag and '
-            'stale_copy_never_visible_dag (the same with hypotheses on the history alone). Ties: stream '
+            'stale_copy_never_visible_dag (hypotheses on the history alone). WORKFLOW OUTPUT (Props.C05Final; model '
+            'Hist.finalContext = DirectWorkflowController.evaluate_workflow_final_context: the end tasks read in batches, '
+            'every batch folded into the accumulated context with evaluate_upstream_context(additive_context=...), and '
+            'Hist.workflowOutput = evaluate_workflow_output for variable references): final_context_folds_all (for '
+            'EVERY batch size >= 1 and every number of end tasks the final context is one n-ary fold over a PERMUTATION '
+            'of all end tasks), final_version_dominates_all, final_leaf_from_max_end, final_keeps_every_leaf, '
+            'final_batch_size_independent, join_rows_order_independent (n-ary order independence), '
+            'output_reads_final_context_first, output_default_is_final_context. '
+            'Ties: stream final = the REAL evaluate_workflow_final_context and '
+            'evaluate_workflow_output over the end tasks of every history, read in batches of 1-4 or 20 rows in a shuffled '
+            'order, vs the model + monitors (the final context is what a join of ALL end tasks would see; every leaf an '
+            'end task published is in the output; another batch size shows the same); engine level: wide forks with no '
+            'closing join run with the database batch size patched down to 2/3, monitors on the real workflow output; stream '
             'ctx = the REAL functions on generated publish histories over fork/join DAGs, every inbound context in '
             'ALL row orders (joins <=4 parents) vs the model; stream hist = the Lean run of the WHOLE history vs '
             'the real inbound/outbound context of every task + the theorems\' hypothesis StableHist evaluated by '
@@ -44,7 +56,10 @@ MANIFEST = {
             'republication nothing follows; whole-variable latest-publisher and order-independence monitors; '
             'stored contexts never modified by evaluation / never changed after completion. "Evaluation never '
             'modifies stored contexts" is vacuous in Lean (immutable values): monitor only.',
-    'note': 'md5 version-key hashing modelled as identity; YAQL/Jinja evaluation not modelled; the whole-history '
+    'note': 'version keys are built as repo patch 28 builds them (every name of the path escaped, Ctx.esc, joined by "."): '
+            'against a tree without that patch histories with dotted variable names (motif gen_dotted, 5%) show the '
+            'finding version-key-collision (fixed / PENDING-28) and model and code disagree; '
+            'md5 version-key hashing modelled as identity; YAQL/Jinja evaluation not modelled; the whole-history '
             'theorems assume shape-stable republication of the leaf path (StableHist, decidable; evaluated by Lean '
             'on every generated history): republication with another shape is known finding G '
             '(later_publish_wins_full_fails), covered by correspondence + monitor; the theorems are about the '
@@ -66,15 +81,22 @@ RULE = ('stream ctx: generated publish histories over fork/join DAGs (50% random
         'real contexts) and per leaf path (StableHist); non-trivial = join or publishing task, every path. Stream '
         'flow: generated single-activation programs (55%) and publish-history motifs rendered as workflows (45%) on '
         'the real engine; one evaluation per completed task execution with >=1 triggering execution; non-trivial = '
-        'a join or a publishing task')
-TRUSTED = ['python dict order irrelevant (canonicalised by sorting keys)']
-LEAN_MODULES = ['Mistral.Props.C05', 'Mistral.Props.C05Causal', 'Mistral.Props.C05Drop']
+        'a join or a publishing task. Stream final: one evaluation per history (end tasks in a shuffled order, batch '
+        'size 1-4 or 20; 15% of the histories are the motif "many end tasks": a wide fork no join closes, leaves at '
+        'independent roots, a variable republished along one branch) + three output clauses; non-trivial = more end '
+        'tasks than the batch size / a non-empty output clause')
+TRUSTED = ['python dict order irrelevant (canonicalised by sorting keys)',
+           'the database read of the end tasks (get_completed_task_executions_as_batches, slices of 20 rows) is '
+           'replaced: function level by slices of 1-4 or 20 rows of synthetic task executions handed to the real '
+           'evaluate_workflow_final_context; engine level by the same query sliced by 2 or 3 rows instead of 20 '
+           '(flow_stream.patch_batches), so that a handful of end tasks spans several batches']
+LEAN_MODULES = ['Mistral.Props.C05', 'Mistral.Props.C05Causal', 'Mistral.Props.C05Drop', 'Mistral.Props.C05Final']
 
 
 def correspond(ctx):
     from vlib import par
     par.run_parallel(ctx, 'harness.ctx_stream', 'run_chunk', [{'n_histories': ctx.n(150, 4000)}] * 14)
-    par.run_parallel(ctx, 'harness.flow_stream', 'run_chunk', [{'n_programs': ctx.n(25, 600)}] * 14)
+    par.run_parallel(ctx, 'harness.flow_stream', 'run_chunk', [{'n_programs': ctx.n(25, 500)}] * 14)
 
 
 def search(ctx):
